@@ -30,8 +30,6 @@ Proof.
     apply existsb_exists. exists j. split; auto. apply in_seq. lia.
 Qed.
 
-Lemma upd_same {A} (l : list A) i d : upd l i (nth i l d) = l.
-Proof. revert i; induction l as [|h t IH]; intros [|i]; simpl; auto. f_equal. apply IH. Qed.
 
 Lemma NoDup_bound (l : list nat) n : NoDup l -> (forall x, In x l -> (x < n)%nat) -> (length l <= n)%nat.
 Proof. intros Hn Hb. rewrite <- (seq_length n 0). apply NoDup_incl_length; auto.
